@@ -705,11 +705,12 @@ PROPS["C25"] = {
 }
 
 PROPS["C06"] = {
-    "theorems": ["C06_gateway_refuted", "C06_gateway_only_interference_fails", "C06_client_refuted", "C06_client_only_interference_fails"],
+    "theorems": ["C06_gateway_refuted", "C06_gateway_only_interference_fails", "C06_register_step_only_interference_fails",
+                 "C06_register_step_examples", "C06_client_refuted", "C06_client_only_interference_fails"],
     "drivers": ["drv_gw.test", "drv_client.test"],
     "units": [Unit("drv_gw", unit_gw), Unit("drv_client", unit_client)],
     "mismatch_kinds": [r"SN:(Puback|Suback|Pubrec|Pubcomp|Pubrel|Publish|Register)", r"MQ:(PUBACK|PUBREC|PUBCOMP)", r"PANIC", r"MISSING-"],
-    "rule": GW_RULE + " (broker message IDs are drawn from the live client exchanges a quarter of the time; two corpus witnesses run first); " + CL_RULE,
+    "rule": GW_RULE + " (broker message IDs are drawn from the live client exchanges a quarter of the time; corpus witnesses run first); " + CL_RULE,
     "assumptions": GW_ASSUME + CL_ASSUME,
 }
 
@@ -781,7 +782,7 @@ PROPS["C26"] = {
     "theorems": ["C26_connect_then_simple_calls", "C26_and_final_disconnect", "C26_subscriptions_and_delivery",
                  "C26_subscriptions_and_final_disconnect", "C26_programs_with_register_qos2_unsubscribe",
                  "C26_message_on_a_new_topic_is_registered_and_delivered",
-                 "C26_sleep_cycle_delivers_every_message_once", "C26_repeated_sleep_cycles", "C26_sleep_cycle_with_a_qos1_message",
+                 "C26_sleep_cycle_delivers_every_message_once", "C26_repeated_sleep_cycles", "C26_sleep_cycle_with_a_qos1_message", "C26_sleep_cycle_with_qos1_messages", "C26_sleep_cycle_with_qos1_messages_delivery",
                  "C26_sleep_cycle_with_a_qos2_message_holds_the_PUBREL",
                  "C26_qos2_message_is_delivered_once_over_two_sleep_cycles", "C26_refuted"],
     "drivers": ["drv_e2e.test"],
